@@ -10,12 +10,14 @@
 //	                               the lifecycle; at every checkpoint everything is cancelled and the
 //	                               goroutine dump must be empty; prints  SOAK k=v ...
 //
-// Script ops:  sub | op:<t|s><to> | op:i<from><to> | recv:<i> | drain:<i> | cancel:<i> | wait:<ms>
-// (after every op the director waits for quiescence and logs the goroutine dump)
+// Script ops:  sub | op:<t|s><to> | op:i<from><to> | recv:<i> | drain:<i> | cancel:<i> | wait:<ms> | settle
+// (after every op the director waits for quiescence and logs the goroutine dump; settle first pauses
+// for longer than the forwarder's grace period, so that no timer of the library can be pending)
 // Trace tokens: SUB (GetStateChan called)  RD:<i> (... returned, subscriber i)  OP:<op> (machine call
 //   issued)  OR:<0|1> (returned, 1 = nil error)  RV:<i>,<state> (director received)  RC:<i> (saw the
 //   channel closed)  CA:<i> (context cancelled)
-//   G:<forwarders>,<cleanups>,<senders>,<unknown>  goroutine dump of a quiescent instant.
+//   G:<forwarders>,<cleanups>,<senders>,<unknown>  goroutine dump of an instant at which every goroutine
+//   is blocked (possibly on a timer);  Q:<...> the same after a settle with no machine call in flight.
 //
 // All randomness comes from internal/prng seeded by -seed.
 package main
@@ -62,6 +64,11 @@ func code(s string) int {
 }
 
 const fsmPrefix = "github.com/robbyt/go-fsm/"
+
+// longer than three grace periods of the repaired forwarder (finitestate.forwardGrace = 100 ms): at the
+// cancel at most three values are in flight for a subscriber (forwarder's hand, manager channel, the
+// sender of a broadcast in progress) and each waits one grace period before it is discarded
+const settlePause = 400 * time.Millisecond
 
 func isHarness(f string) bool {
 	return strings.HasPrefix(f, director.HarnessPrefix) || strings.HasPrefix(f, "main.")
@@ -163,6 +170,7 @@ func scriptChild(sc string) int {
 			return false
 		}
 	}
+	var snapTag = "G"
 	snap := func() {
 		deadline := time.Now().Add(1500 * time.Millisecond)
 		for time.Now().Before(deadline) {
@@ -182,7 +190,7 @@ func scriptChild(sc string) int {
 			if c1.tok() != c2.tok() || (opDone != nil && len(opDone) > 0) {
 				continue
 			}
-			if rec.EmitIfCount(cnt, "%s", c2.tok()) {
+			if rec.EmitIfCount(cnt, "%s%s", snapTag, c2.tok()[1:]) {
 				unknown = append(unknown, c2.desc...)
 				return
 			}
@@ -206,6 +214,18 @@ func scriptChild(sc string) int {
 		default:
 			return false
 		}
+	}
+	// settle: pause for longer than the forwarder's grace (3 values x 100 ms), then dump; the dump is
+	// tagged Q only if no machine call is in flight (its broadcast could be waiting for the 5 s timer)
+	settle := func() {
+		reap(0)
+		time.Sleep(settlePause)
+		reap(0)
+		if opDone == nil {
+			snapTag = "Q"
+		}
+		snap()
+		snapTag = "G"
 	}
 	for _, a := range strings.Fields(sc) {
 		switch {
@@ -256,6 +276,8 @@ func scriptChild(sc string) int {
 			snap()
 		case a == "snap":
 			// every action already ends with a dump of the quiescent state it leads to
+		case a == "settle":
+			settle()
 		case strings.HasPrefix(a, "wait:"):
 			d, _ := strconv.Atoi(a[5:])
 			time.Sleep(time.Duration(d) * time.Millisecond)
@@ -271,6 +293,7 @@ out:
 	}
 	quiesce(500 * time.Millisecond)
 	snap()
+	settle()
 	fmt.Printf("T @ %s\n", strings.Join(rec.Events(), " "))
 	if len(unknown) > 0 {
 		fmt.Printf("UNKNOWN %s\n", strings.Join(unknown, " | "))
@@ -335,7 +358,7 @@ func genScript(r *prng.R, fam string) string {
 	maxOpen := 1 + r.Intn(3)
 	switch fam {
 	case "cycleslong":
-		cycles = 50 + r.Intn(40)
+		cycles = 40 + r.Intn(40)
 	case "burst":
 		cycles = 3 + r.Intn(3)
 		maxOpen = 2 + r.Intn(3)
@@ -418,9 +441,6 @@ func genScript(r *prng.R, fam string) string {
 				pol = 0 // absent consumers: the third change has to wait for the broadcast timer
 			}
 			subs = append(subs, &gs{fill: 1, open: true, policy: pol, k: 1 + r.Intn(3)})
-			if r.Chance(1, 4) {
-				acts = append(acts, "snap")
-			}
 		}
 		burst := r.Intn(4)
 		if fam == "burst" {
@@ -436,14 +456,24 @@ func genScript(r *prng.R, fam string) string {
 					// blocking subscriber while the manager mutex is held, dump again, then wait out the timer
 					timeoutDone = true
 					doOp()
-					acts = append(acts, "snap")
-					for i, s := range subs {
-						if s.open && s.fill >= 3 {
-							acts = append(acts, fmt.Sprintf("cancel:%d", i))
-							s.open = false
+					if r.Chance(1, 2) {
+						// cancel the blocking subscribers: their forwarders discard after the grace and unblock the call
+						for i, s := range subs {
+							if s.open && s.fill >= 3 {
+								acts = append(acts, fmt.Sprintf("cancel:%d", i))
+								s.open = false
+							}
+						}
+						acts = append(acts, "settle")
+					} else {
+						// leave them: the broadcast runs into its 5 s timer and drops the value for them
+						acts = append(acts, "settle", "wait:5200", "settle")
+						for _, s := range subs {
+							if s.open && s.fill >= 3 {
+								s.fill = 3
+							}
 						}
 					}
-					acts = append(acts, "snap", "wait:5200", "snap")
 					continue
 				}
 				// cancel the subscribers that are full (slow / absent consumers give up)
@@ -455,9 +485,6 @@ func genScript(r *prng.R, fam string) string {
 				continue
 			}
 			doOp()
-			if r.Chance(1, 5) {
-				acts = append(acts, "snap")
-			}
 		}
 		// cancel one or all
 		for i, s := range subs {
@@ -465,8 +492,8 @@ func genScript(r *prng.R, fam string) string {
 				cancelSub(i)
 			}
 		}
-		if r.Chance(1, 2) {
-			acts = append(acts, "snap")
+		if fam != "cycleslong" && r.Chance(1, 6) || fam == "cycleslong" && r.Chance(1, 15) {
+			acts = append(acts, "settle")
 		}
 	}
 	return strings.Join(acts, " ")
